@@ -191,6 +191,8 @@ RECIPES = {
                    opts={"classes": "payload,crc,hdr,noise", "noise": "300"},
                    opts_thorough={"classes": "payload,crc,hdr,noise", "noise": "1500", "thorough": True}, thorough_factor=8),
               dict(cmd="damage", gen="embed:12", policy="always_flush", opts={"classes": "embed,hdr"}),
+              # records whose consecutive block-filling frames are byte-identical (uniform / periodic payloads)
+              dict(cmd="damage", gen="uniform:8", policy="always_flush", opts={"classes": "payload,crc"}, thorough_factor=2),
               # every frame payload size 0..720 and the sizes around powers of two: payload / checksum damage only
               dict(cmd="damage", gen="sizes:9", policy="always_flush", opts={"classes": "payload,crc"}, thorough_factor=1,
                    opts_thorough={"classes": "payload,crc,hdr", "thorough": True}),
